@@ -340,3 +340,29 @@ Theorem C16_aliases_separated :
   end.
 Proof. exact aliases_separated. Qed.
 Print Assumptions C16_aliases_separated.
+
+(* the receiver is NAME-AGNOSTIC: for every list of metadata files with pairwise different names of ANY shape (leading
+   dots as in `.prog-wrapped.sym`, several dots, `..x`, long names ...) the received directory holds exactly those
+   names with those contents, beside default.opts.  (On the wire: C16_frame_one_message for every name without NUL.) *)
+Theorem C16_metadata_names_agnostic : forall fx k d L s,
+  NoDup (map fst L) -> (forall e, In e L -> fst e <> n_default_opts) ->
+  mkdir_name fx d (clients s) = Some d -> create_directory d (fs s) d = Some fresh_dir ->
+  exists s' R, run fx (map (pair k) (MDir d :: map msg_of_file L ++ [MEnd])) s = Some s' /\ fs s' d = Some R /\
+    forall f, flookup f R = if list_eqb f n_default_opts then Some [] else flookup f L.
+Proof. exact metadata_any_names. Qed.
+Print Assumptions C16_metadata_names_agnostic.
+
+Theorem C16_metadata_names_agnostic_nonvacuous :
+  NoDup (map fst L_dots) /\ forallb (fun e => negb (list_eqb (fst e) n_default_opts)) L_dots = true /\
+  forallb (fun e => wf_msg (msg_of_file e)) L_dots = true.
+Proof. exact metadata_any_names_ex. Qed.
+Print Assumptions C16_metadata_names_agnostic_nonvacuous.
+
+(* a metadata file whose NAME IS A PATH (empty, ".", "..", or with a '/'): since the fix it is read whole - the framing
+   stays intact - and ignored (fx = true: ANone); the code as found (fx = false) appended to that path: outside the
+   client's directory ("../other.data/info": another client's file) or, when the path cannot be opened, exit. *)
+Theorem C16_invalid_metadata_name_ignored : forall fx f d t rest, nonul f = true -> valid_name f = false ->
+  4 + len_of f + len_of d < INT_LIMIT -> good t = true -> bytes_of t = enc (MMeta f d) ++ rest ->
+  exists t', handle_client_sock fx t = Handled (if fx then ANone else AAppend f d) t' /\ good t' = true /\ bytes_of t' = rest.
+Proof. exact invalid_name_ignored. Qed.
+Print Assumptions C16_invalid_metadata_name_ignored.
